@@ -1,7 +1,7 @@
 """C06 — lifecycle: setup once, iterations, LIFO cleanups exactly once, teardown last."""
 from . import _scn
 ID = "C06"
-PROPS = ["F1Verif.Props.C06"]
+PROPS = ["F1Verif.Props.C06", "F1Verif.Props.FactsC06"]
 ALSO = ["F1Verif.Props.Handle"]
 RULE = ("engine A (component level): generated scenario programs — where setup, bodies and cleanups register cleanups, "
         "fail or panic (every failure API, five panic kinds, panics mid-stack, cleanups that register cleanups) — are "
